@@ -5,6 +5,7 @@ package redis
 import (
 	"encoding/json"
 	"fmt"
+	"github.com/samaritan-proxy/samaritan/host"
 	"strings"
 
 	"github.com/samaritan-proxy/samaritan/verifrt/sched"
@@ -345,7 +346,60 @@ func c04pipelineBody() {
 	sched.SetOutcome(fmt.Sprintf("kind=%d", kind))
 }
 
+// C04 (S): a master dies and its replica is promoted while a slot refresh answered from the old topology is
+// still in flight; the proxy is told that the dead master left the host set (service discovery / health
+// check), which requests a refresh. Once that refresh had two pauses to run, commands for the promoted
+// replica's slots are served like a single server would serve them.
+func c04failoverInFlightBody() {
+	w := c04setup()
+	for i := sched.Choose(sched.ClsInput, 3, "rotation of the random host picks"); i > 0; i-- {
+		vrand.Intn(3)
+	}
+	cl := w.cl
+	c := w.s.NewClient("c0")
+	c.Do("SET", w.ka, "1")
+	refExec(w.s.ref, []string{"SET", w.ka, "1"})
+	sched.WaitQuiescent()
+	w.s.RefreshRound()
+	cl.HoldCluster = true
+	sched.AdvanceTime(int64(slotsRefFreq) + 1)
+	sched.WaitQuiescent()
+	if cl.Held == 0 {
+		sched.SetOutcome("no refresh in flight")
+		return
+	}
+	asked := ""
+	for _, e := range cl.Log {
+		if strings.EqualFold(e.Args[0], "cluster") {
+			asked = e.Node
+		}
+	}
+	w.m0.Stop()
+	cl.Failover(w.r0)
+	sched.WaitQuiescent()
+	w.s.p.u.OnHostRemove(host.New(w.m0.Addr))
+	sched.WaitQuiescent()
+	cl.HoldCluster = false
+	sched.WaitQuiescent()
+	w.s.RefreshRound()
+	w.s.RefreshRound()
+	w.s.RefreshRound()
+	got, err := c.Do("GET", w.ka)
+	if err != nil || !resp.Equal(got, resp.BulkS("1")) {
+		sched.Fail("reply-differs-from-single-server / get / failover during an in-flight refresh",
+			fmt.Sprintf("master died and its replica was promoted while a refresh (asked %s) was in flight, the proxy was told the master left and three refresh pauses passed; GET replied %s %v", asked, got, err))
+	}
+	sched.SetOutcome("asked " + asked)
+}
+
 func init() {
+	sched.Register(&sched.Scenario{Name: "C04/failover-in-flight", Setup: func(tier string) (sched.Config, func()) {
+		b := sched.Bounds{P: 1, F: 1}
+		if tier == "thorough" {
+			b = sched.Bounds{P: 2, F: 2}
+		}
+		return sched.Config{Bounds: b, Iterative: true, MaxSteps: 100000}, c04failoverInFlightBody
+	}})
 	sched.Register(&sched.Scenario{Name: "C04/pipelined-redirect", Setup: func(tier string) (sched.Config, func()) {
 		b := sched.Bounds{P: 1, F: 1, Sel: 0}
 		if tier == "thorough" {
